@@ -33,10 +33,16 @@ Record l1obs := mkL1 { lo_mer : N; lo_rer : N; lo_parent : N; lo_ts : N; lo_cont
    lastMainnetExitRoot, lastRollupExitRoot, getLastGlobalExitRoot *)
 Record after := mkAfter { a_bcount : N; a_broot : N; a_gcount : N; a_groot : N; a_grootmap : N; a_mer : N; a_rer : N; a_ger : N }.
 
+(* tree.GetProof(j, root of version k) of the REAL aggkit append-only tree fed with the bridge leaves, handed to the REAL
+   bridge.verifyMerkleProof / calculateRoot; then the same proof with sibling `tlevel` replaced *)
+Record vobs := mkV { vo_k : N; vo_j : N; vo_leaf : N; vo_root : N; vo_proof : list N; vo_ok : bool; vo_calc : N;
+                     vo_tlevel : nat; vo_tsib : N; vo_tok : bool }.
+
 Inductive step :=
 | STx (ok : bool) (bevs : list bobs) (l1evs : list l1obs) (aft : option after)   (* one mined transaction (or an empty block) *)
 | SLeaf (lt onet oaddr dnet daddr amount mh answer : N)                          (* bridge.getLeafValue, direct *)
-| SL1Leaf (ger bh ts answer : N).                                                (* ger.getLeafValue, direct *)
+| SL1Leaf (ger bh ts answer : N)                                                 (* ger.getLeafValue, direct *)
+| SVerify (vs : list vobs).                                                      (* proofs served by the aggkit tree, judged by the bridge contract *)
 
 Record ecase := mkECase { e_init : after; e_steps : list step }.
 
@@ -57,12 +63,33 @@ Definition K_REVERT := 13.         (* a reverted transaction left logs *)
 Definition K_LEAF_DIRECT := 14.    (* get_leaf_value <> direct bridge.getLeafValue *)
 Definition K_L1LEAF_DIRECT := 15.  (* l1info_leaf_value <> direct ger.getLeafValue *)
 Definition K_INIT := 16.           (* empty trees *)
+Definition K_CALC := 17.           (* dc_calculate_rootN <> bridge.calculateRoot *)
+Definition K_VERIFY := 18.         (* dc_verify_merkle_proof <> bridge.verifyMerkleProof (served or tampered proof) *)
+Definition K_VLEAF := 19.          (* the leaf / root handed over is not the model's j-th leaf / root of version k *)
+Definition K_REJECTED := 20.       (* THE PROPERTY: the contract rejected a proof served by the node (or the proof has not 32 siblings) *)
+Definition K_TAMPER_OK := 21.      (* the contract accepted a tampered proof *)
 
 Definition chk (b : bool) (code : N) : list N := if b then [] else [code].
 
 (* model state: the two deposit contracts with their current roots (computed once per change), last mainnet / rollup exit root *)
-Record mstate := mkM { m_b : dcontract; m_broot : N; m_g : dcontract; m_groot : N; m_mer : N; m_rer : N }.
-Definition m_init : mstate := let r := dc_get_root dc_init in mkM dc_init r dc_init r 0 0.
+Record mstate := mkM { m_b : dcontract; m_broot : N; m_g : dcontract; m_groot : N; m_mer : N; m_rer : N;
+                       m_hist : list (N * N) }.   (* (leaf, root after it), newest first *)
+Definition m_init : mstate := let r := dc_get_root dc_init in mkM dc_init r dc_init r 0 0 [].
+
+Fixpoint set_nth (n : nat) (x : N) (l : list N) : list N :=
+  match l, n with [], _ => [] | _ :: t, O => x :: t | a :: t, S n' => a :: set_nth n' x t end.
+
+Definition do_verify (m : mstate) (v : vobs) : list N :=
+  let h := rev (m_hist m) in
+  let k := N.to_nat (vo_k v) in let j := N.to_nat (vo_j v) in
+  chk (match nth_error h j, nth_error h (k - 1) with
+       | Some (leaf, _), Some (_, root) => (leaf =? vo_leaf v) && (root =? vo_root v) && (0 <? vo_k v) && (vo_j v <? vo_k v)
+       | _, _ => false end) K_VLEAF ++
+  chk (dc_calculate_rootN (vo_leaf v) (vo_proof v) (vo_j v) =? vo_calc v) K_CALC ++
+  chk (Bool.eqb (dc_verify_merkle_proof (vo_leaf v) (vo_proof v) (vo_j v) (vo_root v)) (vo_ok v)) K_VERIFY ++
+  chk (Bool.eqb (dc_verify_merkle_proof (vo_leaf v) (set_nth (vo_tlevel v) (vo_tsib v) (vo_proof v)) (vo_j v) (vo_root v)) (vo_tok v)) K_VERIFY ++
+  chk (vo_ok v && Nat.eqb (length (vo_proof v)) 32) K_REJECTED ++
+  chk (negb (vo_tok v)) K_TAMPER_OK.
 
 Definition leaf_of_ev (b : bridge_ev) : N :=
   get_leaf_value (b_lt b) (b_onet b) (b_oaddr b) (b_dnet b) (b_daddr b) (b_amount b) (keccakN (b_meta b)).
@@ -72,7 +99,8 @@ Definition do_bev (acc : mstate * list N) (o : bobs) : mstate * list N :=
   let b := bo_ev o in
   let leaf := leaf_of_ev b in
   let c' := dc_deposit (m_b m) leaf in
-  (mkM c' (dc_get_root c') (m_g m) (m_groot m) (m_mer m) (m_rer m),
+  let r' := dc_get_root c' in
+  (mkM c' r' (m_g m) (m_groot m) (m_mer m) (m_rer m) ((bo_leaf_repo o, r') :: m_hist m),
    bad ++ chk (leaf =? bo_leaf_contract o) K_LEAF_EVENT ++ chk (leaf =? bo_leaf_repo o) K_LEAF_REPO
        ++ chk (bridge_leaf b =? bo_leaf_contract o) K_LEAF_MODEL ++ chk (keccakN (b_meta b) =? bo_meta_hash o) K_META_HASH
        ++ chk (b_dc b =? dc_count (m_b m)) K_BCOUNT).
@@ -83,7 +111,7 @@ Definition do_l1 (acc : mstate * list N) (o : l1obs) : mstate * list N :=
   let leaf := l1info_leaf_value g (lo_parent o) (lo_ts o) in
   let c' := dc_deposit (m_g m) leaf in
   let root := dc_get_root c' in
-  (mkM (m_b m) (m_broot m) c' root (lo_mer o) (lo_rer o),
+  (mkM (m_b m) (m_broot m) c' root (lo_mer o) (lo_rer o) (m_hist m),
    bad ++ (match lo_contract o with
            | Some (cg, cleaf) => chk (g =? cg) K_GER ++ chk (leaf =? cleaf) K_L1LEAF
            | None => [] end)
@@ -114,6 +142,7 @@ Definition do_step (m : mstate) (s : step) : mstate * list N :=
       (m, chk (get_leaf_value lt onet oaddr dnet daddr amount mh =? answer) K_LEAF_DIRECT)
   | SL1Leaf g bh ts answer =>
       (m, chk (l1info_leaf_value g bh ts =? answer) K_L1LEAF_DIRECT)
+  | SVerify vs => (m, flat_map (do_verify m) vs)
   end.
 
 Fixpoint run_steps (i : nat) (m : mstate) (ss : list step) : list (nat * N) :=
